@@ -7,6 +7,7 @@ import (
 	"go/token"
 	"go/types"
 	"math/big"
+	"sort"
 	"strings"
 )
 
@@ -768,4 +769,189 @@ func constantFloat(v constant.Value) (*big.Float, bool) {
 	}
 	f, _ := constant.Float64Val(v)
 	return big.NewFloat(f), true
+}
+
+// JSON.encoder-options-kept — C13 ("dump … consistent"): the encoder's option
+// (string-numbers) is fixed when the encoder is made and must hold for the
+// whole document.  encode() may start a deep document over; whatever it resets
+// for the second pass, the option is not part of the pass's scratch state.
+func init() {
+	register(&Rule{ID: "JSON.encoder-options-kept", Floor: 1,
+		Doc: "the fields of libjson.encoder that newEncoder fills from its parameters (the dump options) have no other writer: no assignment to such a field, and no whole-struct overwrite (`*enc = encoder{…}` / `enc = encoder{…}`) that does not carry the field over from the value being replaced — a document is written under one set of options from its first byte to its last, also when it is deep enough to be written twice",
+		Run: func(c *Ctx) []Obligation {
+			const rid = "JSON.encoder-options-kept"
+			ctor, cd, pkg := c.LookupFunc(jsonPkg + ".newEncoder")
+			if ctor == nil {
+				return []Obligation{anchorMissing(rid, "libjson.newEncoder")}
+			}
+			info := pkg.TypesInfo
+			encObj := pkg.Types.Scope().Lookup("encoder")
+			if encObj == nil {
+				return []Obligation{anchorMissing(rid, "libjson.encoder")}
+			}
+			encT := encObj.Type()
+			params := map[types.Object]bool{}
+			for _, f := range cd.Type.Params.List {
+				for _, nm := range f.Names {
+					params[info.Defs[nm]] = true
+				}
+			}
+			options := map[string]bool{}
+			ast.Inspect(cd.Body, func(n ast.Node) bool {
+				switch x := n.(type) {
+				case *ast.KeyValueExpr:
+					if id, ok := x.Key.(*ast.Ident); ok && params[identObj(info, x.Value)] {
+						options[id.Name] = true
+					}
+				case *ast.AssignStmt:
+					for i, l := range x.Lhs {
+						if se, ok := ast.Unparen(l).(*ast.SelectorExpr); ok && i < len(x.Rhs) && params[identObj(info, x.Rhs[i])] {
+							options[se.Sel.Name] = true
+						}
+					}
+				}
+				return true
+			})
+			if len(options) == 0 {
+				return []Obligation{mkOb(c, rid, FuncUnit{ctor, cd, pkg}, "option fields", cd, Undecided, "newEncoder fills no field from a parameter", true)}
+			}
+			var obs []Obligation
+			obs = append(obs, mkOb(c, rid, FuncUnit{ctor, cd, pkg}, "option fields", cd, Proved, "set by the constructor: "+strings.Join(sortedKeys(options), ", "), false))
+			isEnc := func(t types.Type) bool {
+				if p, ok := t.(*types.Pointer); ok {
+					t = p.Elem()
+				}
+				return types.Identical(t, encT)
+			}
+			for _, u := range c.Funcs(func(p string) bool { return rel(p) == jsonPkg }) {
+				if u.Decl == nil || u.Decl.Body == nil || u.Obj == ctor {
+					continue
+				}
+				ord := &ordinal{}
+				ast.Inspect(u.Decl.Body, func(n ast.Node) bool {
+					as, ok := n.(*ast.AssignStmt)
+					if !ok {
+						return true
+					}
+					for i, l := range as.Lhs {
+						l = ast.Unparen(l)
+						// field store
+						if se, ok := l.(*ast.SelectorExpr); ok && options[se.Sel.Name] {
+							if tv, ok := info.Types[se.X]; ok && isEnc(tv.Type) {
+								obs = append(obs, mkOb(c, rid, u, ord.next("store to ."+se.Sel.Name), as, Violated, "an option of the encoder is changed after construction: part of the document is written under one option and part under another", true))
+							}
+							continue
+						}
+						// whole-struct overwrite
+						target := l
+						if st, ok := l.(*ast.StarExpr); ok {
+							target = st.X
+						}
+						tv, ok := info.Types[target]
+						if !ok || !isEnc(tv.Type) || i >= len(as.Rhs) {
+							continue
+						}
+						if _, isStar := l.(*ast.StarExpr); !isStar {
+							if _, isPtr := tv.Type.(*types.Pointer); isPtr {
+								continue // re-pointing a pointer variable, not overwriting a value
+							}
+						}
+						cl, ok := ast.Unparen(as.Rhs[i]).(*ast.CompositeLit)
+						if !ok {
+							continue
+						}
+						kept := map[string]bool{}
+						for _, el := range cl.Elts {
+							if kv, ok := el.(*ast.KeyValueExpr); ok {
+								if id, ok := kv.Key.(*ast.Ident); ok {
+									if se, ok := ast.Unparen(kv.Value).(*ast.SelectorExpr); ok && se.Sel.Name == id.Name && types.ExprString(se.X) == types.ExprString(target) {
+										kept[id.Name] = true
+									}
+								}
+							}
+						}
+						var lost []string
+						for o := range options {
+							if !kept[o] {
+								lost = append(lost, o)
+							}
+						}
+						sort.Strings(lost)
+						construct := ord.next("overwrite of the whole encoder")
+						if len(lost) > 0 {
+							obs = append(obs, mkOb(c, rid, u, construct, as, Violated, "the encoder is replaced by a fresh value that does not carry over "+strings.Join(lost, ", ")+": after the restart for a deeply nested document the option is back to its zero value, so the same value dumps differently depending on its depth (\"7\" shallow, 7 deep under :string-numbers)", true))
+						} else {
+							obs = append(obs, mkOb(c, rid, u, construct, as, Proved, "carries the option fields over", true))
+						}
+					}
+					return true
+				})
+			}
+			return obs
+		}})
+}
+
+// JSON.entry-bytes-unchanged — C13 ("the load entry points agree on
+// acceptance"): load-string, load-bytes and load-message differ in where the
+// text comes from, not in what text they accept.  Each hands the decoder the
+// argument's bytes exactly; an entry point that trims, strips or rewrites them
+// first (a byte-order mark, surrounding whitespace) accepts documents its
+// siblings — and encoding/json — refuse.
+func init() {
+	register(&Rule{ID: "JSON.entry-bytes-unchanged", Floor: 2,
+		Doc: "in every libjson function that calls Serializer.LoadWith (or Load) the document argument is, directly, a byte-slice parameter, <arg>.Bytes() or []byte(<arg>.Str) of a lisp argument — never the result of another call or a local computed from one: all load entry points decode the same bytes they were given",
+		Run: func(c *Ctx) []Obligation {
+			const rid = "JSON.entry-bytes-unchanged"
+			lw := c.LookupMethod(jsonPkg + ".Serializer.LoadWith")
+			ld := c.LookupMethod(jsonPkg + ".Serializer.Load")
+			if lw == nil || ld == nil {
+				return []Obligation{anchorMissing(rid, "Serializer.LoadWith / Load")}
+			}
+			var obs []Obligation
+			for _, u := range c.Funcs(func(p string) bool { return rel(p) == jsonPkg }) {
+				if u.Decl == nil || u.Decl.Body == nil {
+					continue
+				}
+				info := u.Pkg.TypesInfo
+				params := map[types.Object]bool{}
+				if u.Decl.Type.Params != nil {
+					for _, f := range u.Decl.Type.Params.List {
+						for _, nm := range f.Names {
+							params[info.Defs[nm]] = true
+						}
+					}
+				}
+				ord := &ordinal{}
+				for _, ce := range callsIn(u.Decl.Body, true) {
+					f := originOf(Callee(info, ce))
+					if (f != lw && f != ld) || len(ce.Args) == 0 {
+						continue
+					}
+					construct := ord.next("document handed to " + f.Name())
+					a := ast.Unparen(ce.Args[0])
+					ok := false
+					why := ""
+					switch x := a.(type) {
+					case *ast.Ident:
+						if params[info.Uses[x]] {
+							ok, why = true, "the function's own byte-slice parameter"
+						}
+					case *ast.CallExpr:
+						if se, isSel := ast.Unparen(x.Fun).(*ast.SelectorExpr); isSel && se.Sel.Name == "Bytes" && len(x.Args) == 0 {
+							ok, why = true, "the bytes of the lisp argument"
+						} else if tv, isConv := info.Types[x.Fun]; isConv && tv.IsType() && len(x.Args) == 1 {
+							if se, isSel := ast.Unparen(x.Args[0]).(*ast.SelectorExpr); isSel && se.Sel.Name == "Str" {
+								ok, why = true, "the text of the lisp argument"
+							}
+						}
+					}
+					if ok {
+						obs = append(obs, mkOb(c, rid, u, construct, ce, Proved, why, true))
+					} else {
+						obs = append(obs, mkOb(c, rid, u, construct, ce, Violated, "the document is `"+types.ExprString(a)+"`, not the argument's bytes as given: this entry point accepts (or refuses) text its siblings and encoding/json treat differently — e.g. a UTF-8 byte-order mark in front of a document loads through json:load-bytes and is a syntax error through json:load-string", true))
+					}
+				}
+			}
+			return obs
+		}})
 }
